@@ -1,7 +1,11 @@
 """C10 Changing representation never changes which action earns which reward.
 
 Case format (all JSON):
-  {"stream":[INTER...], "chain":[STEP...], "via":"filters"|"shortcuts"}
+  {"stream":[INTER...], "chain":[STEP...], "via":"filters"|"pipes"|"shortcuts",
+   "delivery":"list"|"lazy"   (lazy: every filter is fed from a generator that builds each interaction and its action objects
+                               freshly and drops it right after it was yielded; the output is judged and dropped one by one),
+   "wrap":null|"lazysparse"|"hashable"   (sparse actions are handed over as coba.pipes.rows.LazySparse / HashableSparse views),
+   "more":[[INTER...]...]      (further sequences pushed through the SAME filter objects, one after the other, each judged on its own)}
   INTER = {"context":V, "actions":[V...]?, "rewards":REW?, "feedbacks":REW?, "action":V?, "reward":Q?, "probability":Q?}
   V     = null | {"n":[num,den]} | {"s":str} | {"c":str,"L":[str...]} | {"l":[V...]} | {"t":[V...]} | {"d":[[key,V]...]}
           (outputs only: {"z":[[idx,V]...],"len":n} = coba.pipes.SparseDense)
@@ -83,7 +87,7 @@ def enc(x):
         return {"l": [enc(y) for y in x]}
     if isinstance(x, tuple):
         return {"t": [enc(y) for y in x]}
-    if isinstance(x, dict):
+    if isinstance(x, dict) or type(x).__name__ in ("LazySparse", "HashableSparse"):
         return {"d": sorted(([str(k), enc(y)] for k, y in x.items()), key=lambda p: p[0])}
     if isinstance(x, SparseDense):
         return {"z": sorted(([int(k), enc(y)] for k, y in x._values.items()), key=lambda p: p[0]), "len": int(x._length)}
@@ -161,19 +165,45 @@ def mk_rew(r):
     raise ValueError("bad reward %r" % (r,))
 
 
-def mk_inter(it):
+def wrap_sparse(x, wrap):
+    if wrap and isinstance(x, dict):
+        if wrap == "lazysparse":
+            from coba.pipes.rows import LazySparse
+            return LazySparse(x)
+        from coba.primitives import HashableSparse
+        return HashableSparse(x)
+    return x
+
+
+def mk_inter(it, wrap=None):
     from coba.primitives import SimulatedInteraction, GroundedInteraction, LoggedInteraction
     ctx = mk(it.get("context"))
+    acts = [wrap_sparse(mk(a), wrap) for a in it["actions"]] if "actions" in it else None
     if "action" in it:
         kw = {}
-        if "actions" in it:
-            kw["actions"] = [mk(a) for a in it["actions"]]
+        if acts is not None:
+            kw["actions"] = acts
         if "rewards" in it:
             kw["rewards"] = mk_rew(it["rewards"])
-        return LoggedInteraction(ctx, mk(it["action"]), unq(it["reward"]), unq(it["probability"]) if it.get("probability") is not None else None, **kw)
+        return LoggedInteraction(ctx, wrap_sparse(mk(it["action"]), wrap), unq(it["reward"]), unq(it["probability"]) if it.get("probability") is not None else None, **kw)
     if "feedbacks" in it:
-        return GroundedInteraction(ctx, [mk(a) for a in it["actions"]], mk_rew(it["rewards"]), mk_rew(it["feedbacks"]))
-    return SimulatedInteraction(ctx, [mk(a) for a in it["actions"]], mk_rew(it["rewards"]))
+        return GroundedInteraction(ctx, acts, mk_rew(it["rewards"]), mk_rew(it["feedbacks"]))
+    return SimulatedInteraction(ctx, acts, mk_rew(it["rewards"]))
+
+
+def sequences(case):
+    return [case["stream"]] + list(case.get("more") or [])
+
+
+def source_of(case, seq):
+    """zero-argument callable giving the interactions of `seq`: a materialised list, or a generator of fresh objects"""
+    wrap = case.get("wrap")
+    if case.get("delivery") == "lazy":
+        def gen():
+            for it in seq:
+                yield mk_inter(it, wrap)
+        return gen
+    return lambda: [mk_inter(it, wrap) for it in seq]
 
 
 def mk_noise(nz):
@@ -250,44 +280,62 @@ def make_env_class():
     return ListEnv
 
 
-def run_pipeline(case):
-    """the whole chain, lazily composed exactly as coba composes it; returns list of output interactions"""
-    stream = lambda: [mk_inter(it) for it in case["stream"]]
-    chain = case["chain"]
-    bstates, _ = batch_states(chain)
-    if case.get("via") == "shortcuts":
-        from coba.environments import Environments
-        envs = Environments(make_env_class()(stream))
-        for st, b in zip(chain, bstates):
-            f = st["f"]
-            if b and f not in ("batch", "unbatch"):
-                envs = envs.filter(mk_filter(st, b))
-            elif f == "repr":
-                envs = envs.repr(st["cc"], st["ca"])
-            elif f == "flatten":
-                envs = envs.flatten()
-            elif f == "sparsify":
-                envs = envs.sparse(st["c"], st["a"])
-            elif f == "densify":
-                envs = envs.dense(st["n"], st["m"], st["c"], st["a"])
-            elif f == "noise":
-                envs = envs.noise(mk_noise(st.get("c")), mk_noise(st.get("a")), None, st.get("seed", 1))
-            elif f == "batch":
-                envs = envs.batch(st["n"])
-            elif f == "unbatch":
-                envs = envs.unbatch()
-            elif f == "finalize":
-                envs = envs.filter(mk_filter(st))
-        env = envs[0]           # appends BatchSafe(Finalize()) exactly as iteration / experiments do
-        return list(env.read())
-    from coba.pipes import Pipes
-    filters = [mk_filter(st, b) for st, b in zip(chain, bstates)]
-    if case.get("via") == "pipes" and filters:
-        return list(Pipes.join(make_env_class()(stream), *filters).read())
-    items = stream()
-    for f in filters:
-        items = f.filter(items)
-    return list(items)
+class Pipeline:
+    """the whole chain, composed exactly as coba composes it, built ONCE: every sequence given to `run` goes through the same filter objects"""
+
+    def __init__(self, case):
+        self.case = case
+        self.source = None
+        chain = case["chain"]
+        bstates, _ = batch_states(chain)
+        Env = make_env_class()
+        self.mode = case.get("via") or "filters"
+        if self.mode == "shortcuts":
+            from coba.environments import Environments
+            envs = Environments(Env(lambda: self.source()))
+            for st, b in zip(chain, bstates):
+                f = st["f"]
+                if b and f not in ("batch", "unbatch"):
+                    envs = envs.filter(mk_filter(st, b))
+                elif f == "repr":
+                    envs = envs.repr(st["cc"], st["ca"])
+                elif f == "flatten":
+                    envs = envs.flatten()
+                elif f == "sparsify":
+                    envs = envs.sparse(st["c"], st["a"])
+                elif f == "densify":
+                    envs = envs.dense(st["n"], st["m"], st["c"], st["a"])
+                elif f == "noise":
+                    envs = envs.noise(mk_noise(st.get("c")), mk_noise(st.get("a")), None, st.get("seed", 1))
+                elif f == "batch":
+                    envs = envs.batch(st["n"])
+                elif f == "unbatch":
+                    envs = envs.unbatch()
+                elif f == "finalize":
+                    envs = envs.filter(mk_filter(st))
+            self.env = envs[0]           # appends BatchSafe(Finalize()) exactly as iteration / experiments do
+            return
+        from coba.pipes import Pipes
+        self.filters = [mk_filter(st, b) for st, b in zip(chain, bstates)]
+        if self.mode == "pipes" and self.filters:
+            self.env = Pipes.join(Env(lambda: self.source()), *self.filters)
+        else:
+            self.mode = "filters"
+
+    def run(self, source):
+        """iterator over the output interactions for the interactions `source()` delivers"""
+        self.source = source
+        if self.mode in ("shortcuts", "pipes"):
+            return iter(self.env.read())
+        items = source()
+        for f in self.filters:
+            items = f.filter(items)
+        return iter(items)
+
+
+def run_pipeline(case, seq=None):
+    """output interactions (a list) of the first (or the given) sequence through a freshly built pipeline"""
+    return list(Pipeline(case).run(source_of(case, case["stream"] if seq is None else seq)))
 
 
 def effective_chain(case):
@@ -406,6 +454,8 @@ def _action_dicts(inp, with_context=False):
         for grp in ([it.get("context")] if with_context else []) + list(it.get("actions") or []) + ([it["action"]] if "action" in it else []):
             if isinstance(grp, dict):
                 yield grp
+            elif type(grp).__name__ in ("LazySparse", "HashableSparse"):
+                yield dict(grp.items())
 
 
 def name_clash(inp):
@@ -535,23 +585,44 @@ def interaction_json(it):
 
 
 # ------------------------------------------------------------------ stepwise run (blame + oracles for the model)
+class Stepwise:
+    """the chain applied one filter at a time (materialising in between); filter objects built once and reused per sequence"""
+
+    def __init__(self, case):
+        self.case = case
+        self.chain = effective_chain(case)
+        bstates, _ = batch_states(self.chain)
+        self.filters = [mk_filter(st, b) for st, b in zip(self.chain, bstates)]
+
+    def run(self, seq):
+        """(list of (step, members_before, members_after), name of the exception that stopped it or None)"""
+        items = [mk_inter(it, self.case.get("wrap")) for it in seq]
+        res = []
+        for st, flt in zip(self.chain, self.filters):
+            before, _ = members(items)
+            try:
+                out = list(flt.filter(items))
+            except Exception as e:
+                return res, type(e).__name__
+            after, _ = members(out)
+            res.append((st, before, after))
+            items = out
+        return res, None
+
+
 def run_stepwise(case):
-    """apply the chain one filter at a time, materialising in between.
-    returns (list of (step, members_before, members_after), name of the exception that stopped it or None)"""
-    chain = effective_chain(case)
-    bstates, _ = batch_states(chain)
-    items = [mk_inter(it) for it in case["stream"]]
-    res = []
-    for st, b in zip(chain, bstates):
-        before, _ = members(items)
-        try:
-            out = list(mk_filter(st, b).filter(items))
-        except Exception as e:
-            return res, type(e).__name__
-        after, _ = members(out)
-        res.append((st, before, after))
-        items = out
-    return res, None
+    return Stepwise(case).run(case["stream"])
+
+
+def densify_keys(st, before):
+    """the keys a Densify(lookup) step asks its table for, in order (the table outlives the filter() call)"""
+    keys = []
+    for it in before:
+        grps = ([it.get("context")] if st["c"] else []) + (list(it.get("actions") or []) + ([it["action"]] if "action" in it else []) if st["a"] else [])
+        for g in grps:
+            if isinstance(g, dict) or type(g).__name__ in ("LazySparse", "HashableSparse"):
+                keys += [str(k) for k, _ in g.items()]
+    return keys
 
 
 def noise_oracle(st, before, after):
@@ -582,16 +653,8 @@ def noise_oracle(st, before, after):
 
 def collect_keys(ms):
     keys = set()
-
-    def walk(v):
-        if isinstance(v, dict):
-            keys.update(str(k) for k in v.keys())
-    for it in ms:
-        walk(it.get("context"))
-        for a in it.get("actions") or []:
-            walk(a)
-        if "action" in it:
-            walk(it["action"])
+    for d in _action_dicts(ms, True):
+        keys.update(str(k) for k in d.keys())
     return sorted(keys)
 
 
@@ -1075,8 +1138,15 @@ class C10(Property):
     def _evaluate(self, case, driver):
         fails, tags = [], []
         chain = effective_chain(case)
+        lazy = case.get("delivery") == "lazy"
         tags.append("via:" + case.get("via", "filters"))
+        tags.append("delivery:" + ("lazy" if lazy else "list"))
+        if case.get("wrap"):
+            tags.append("wrap:" + case["wrap"])
+        if case.get("more"):
+            tags.append("reuse:%d" % (1 + len(case["more"])))
         tags.append("len:%d" % len(case["chain"]))
+        tags.append("stream:%s" % ("1-3" if len(case["stream"]) <= 3 else "4-19" if len(case["stream"]) < 20 else "20+"))
         first = case["stream"][0]
         tags.append("kind:" + ("logged" if "action" in first else "igl" if "feedbacks" in first else "sim"))
         if "rewards" in first:
@@ -1088,20 +1158,39 @@ class C10(Property):
             tags.append("actions:" + ("none" if a0 is None else {"n": "num", "s": "str", "c": "cat", "l": "list", "t": "tuple", "d": "sparse"}[sorted(a0.keys())[0] if "c" not in a0 else "c"]))
         for st in chain:
             tags.append("step:" + st["f"] + (":" + str(st["ca"]) if st["f"] == "repr" else ""))
-        original = [mk_inter(it) for it in case["stream"]]
-        original, _ = members(original)
 
-        # the real pipeline, lazily composed
-        impl_err, final, sizes = None, None, None
+        # the filter objects are built once; every sequence of the case goes through the same objects, one after the other
+        pipe_err = None
         try:
-            out = run_pipeline(case)
-            final, sizes = members(out)
+            pipe = Pipeline(case)
         except Exception as e:
-            impl_err = type(e).__name__
-            tags.append("raises:" + impl_err)
+            pipe, pipe_err = None, type(e).__name__
+        stepw = Stepwise(case)
+        prior = {}             # step index -> keys a Densify(lookup) step was asked for in earlier sequences (None = unknown)
+        results, nontrivial = [], False
+        for si, seq in enumerate(sequences(case)):
+            where = "" if si == 0 else "sequence %d (same filter objects): " % (si + 1)
+            r = self.eval_sequence(case, seq, si, where, pipe, pipe_err, stepw, chain, lazy, fails, tags)
+            nontrivial = nontrivial or r["nontrivial"]
+            model = None
+            if driver is not None:
+                model = self.correspond(case, seq, chain, r["steps"], r["impl"], prior, where, fails, tags, driver)
+            for i, st in enumerate(chain):
+                if st["f"] == "densify" and st["m"] == "lookup" and prior.get(i, []) is not None:
+                    if i < len(r["steps"]) and not r["impl"]["error"]:
+                        prior[i] = prior.get(i, []) + densify_keys(st, r["steps"][i][1])
+                    else:
+                        prior[i] = None
+            results.append({"impl": r["impl"], "model": model})
+        out = {"fails": fails, "nontrivial": bool(nontrivial), "tags": tags, "impl": results[0]["impl"], "model": results[0]["model"]}
+        if len(results) > 1:
+            out["more"] = results[1:]
+        return out
 
-        # stepwise run: per-step (B) with blame, oracles for the model
-        steps, step_err = run_stepwise(case)
+    def eval_sequence(self, case, seq, si, where, pipe, pipe_err, stepw, chain, lazy, fails, tags):
+        wrap = case.get("wrap")
+        # stepwise run: per-step (B) with blame, oracles for the model, excuses
+        steps, step_err = stepw.run(seq)
         changed = False
         stop = None          # "fail" | "excused": why the per-step checks ended
         collapsed_at = None
@@ -1112,27 +1201,57 @@ class C10(Property):
                 tags.append("changed-by:" + st["f"])
             if stop:
                 continue
-            r = compare_step(label, before, after, is_lossy(st, before), fails, tags, "step", st)
+            r = compare_step(label, before, after, is_lossy(st, before), fails, tags, where + "step", st)
             if not r["ok"]:
                 stop = "fail"
             elif r["excused"]:
                 stop = "excused"
             elif r["collapsed"] and collapsed_at is None:
                 collapsed_at = label
-        # the whole (lazily composed) pipeline against the original, unless a step already explains or excuses it
-        if final is not None and not stop:
-            before_n = len(fails)
-            compare_step("pipeline" if not collapsed_at else "collapse@" + collapsed_at, original, final, False, fails, tags, "pipeline")
-        if final is not None and sizes is not None and not stop and all(pairwise_distinct(m["actions"]) for m in final if "actions" in m):
-            self.check_batch_call(out, original, fails, tags)
+        plabel = ("lazy-pipeline" if lazy else "pipeline") if not collapsed_at else "collapse@" + collapsed_at
+        has_target = False
 
-        nontrivial = changed and final is not None and any(
-            callable(o.get("rewards")) or callable(o.get("feedbacks")) or ("action" in o and "actions" in o) for o in original)
-        impl = {"error": impl_err, "sizes": sizes, "stream": [interaction_json(it) for it in final] if final is not None else None}
-        model = None
-        if driver is not None:
-            model = self.correspond(case, chain, steps, step_err, impl, fails, tags, driver)
-        return {"fails": fails, "nontrivial": bool(nontrivial), "tags": tags, "impl": impl, "model": model}
+        # the real pipeline, lazily composed
+        impl_err, final, sizes = pipe_err, None, None
+        if pipe is not None:
+            try:
+                if lazy:
+                    # fed from a generator of fresh objects; each output is judged against a fresh copy of its input and dropped
+                    final, t = [], 0
+                    for out in pipe.run(source_of(case, seq)):
+                        ms, sz = members([out])
+                        if sz:
+                            sizes = (sizes or []) + sz
+                        for m in ms:
+                            if t >= len(seq):
+                                fails.append(F("B", "%s%s produced more interactions than it was given (%d)" % (where, plabel, len(seq)), "%s:stream-length" % plabel))
+                                break
+                            o = members([mk_inter(seq[t], wrap)])[0][0]
+                            has_target = has_target or callable(o.get("rewards")) or callable(o.get("feedbacks")) or ("action" in o and "actions" in o)
+                            if not stop:
+                                compare_step(plabel, [o], [m], False, fails, tags, where + "pipeline, interaction %d" % t)
+                            final.append(interaction_json(m))
+                            t += 1
+                        del ms, out
+                    if t < len(seq) and not stop:
+                        fails.append(F("B", "%s%s turned %d interactions into %d" % (where, plabel, len(seq), t), "%s:stream-length" % plabel))
+                else:
+                    out = list(pipe.run(source_of(case, seq)))
+                    fin, sizes = members(out)
+                    original, _ = members([mk_inter(it, wrap) for it in seq])
+                    has_target = any(callable(o.get("rewards")) or callable(o.get("feedbacks")) or ("action" in o and "actions" in o) for o in original)
+                    # the whole pipeline against the original, unless a step already explains or excuses it
+                    if not stop:
+                        compare_step(plabel, original, fin, False, fails, tags, where + "pipeline")
+                    if sizes is not None and not stop and all(pairwise_distinct(m["actions"]) for m in fin if "actions" in m):
+                        self.check_batch_call(out, original, fails, tags)
+                    final = [interaction_json(it) for it in fin]
+            except Exception as e:
+                impl_err, final = type(e).__name__, None
+        if impl_err:
+            tags.append("raises:" + impl_err)
+        impl = {"error": impl_err, "sizes": sizes, "stream": final}
+        return {"impl": impl, "steps": steps, "step_err": step_err, "nontrivial": changed and final is not None and has_target}
 
     def check_batch_call(self, out, original, fails, tags):
         """a batched stream is used through its call protocol: rewards(batch of actions) -> batch of rewards"""
@@ -1166,7 +1285,7 @@ class C10(Property):
                                                % (key, i, json.dumps(obs_json(got)), key, json.dumps(obs_json(exp))), "batch-call:%s" % key))
 
     # ---- (A) correspondence with the Lean model
-    def correspond(self, case, chain, steps, step_err, impl, fails, tags, driver):
+    def correspond(self, case, seq, chain, steps, impl, prior, where, fails, tags, driver):
         cfg = detect_cfg()
         mchain = []
         for i, st in enumerate(chain):
@@ -1179,8 +1298,13 @@ class C10(Property):
             if st["f"] == "densify" and st["m"] == "hashing":
                 keys = collect_keys(steps[i][1]) if i < len(steps) else []
                 ms["hash"] = [[k, zlib.crc32(k.encode("ascii")) % st["n"]] for k in keys if k.isascii()]
+            if st["f"] == "densify" and st["m"] == "lookup" and i in prior:
+                if prior[i] is None:
+                    tags.append("skipA:prior-unknown")     # an earlier sequence raised half way: what its look-up table holds is not determined here
+                    return None
+                ms["prior"] = prior[i]
             mchain.append(ms)
-        ans = driver.ask({"stream": case["stream"], "chain": mchain, "cfg": cfg})
+        ans = driver.ask({"stream": seq, "chain": mchain, "cfg": cfg})
         model = ans["model"]
         if model.get("error") == "unmodelled":
             tags.append("skipA:unmodelled")
@@ -1196,13 +1320,13 @@ class C10(Property):
             tags.append("hyp")
         if impl["error"] or model.get("error"):
             if bool(impl["error"]) != bool(model.get("error")):
-                fails.append(F("A", "implementation %s, model %s" % ("raised " + impl["error"] if impl["error"] else "returned", "raised " + str(model.get("error")) if model.get("error") else "returned"), "A:error"))
+                fails.append(F("A", where + "implementation %s, model %s" % ("raised " + impl["error"] if impl["error"] else "returned", "raised " + str(model.get("error")) if model.get("error") else "returned"), "A:error"))
             return model
         if (impl["sizes"] or None) != (model.get("sizes") or None):
-            fails.append(F("A", "batch sizes: implementation %s, model %s" % (impl["sizes"], model.get("sizes")), "A:batch-sizes"))
+            fails.append(F("A", where + "batch sizes: implementation %s, model %s" % (impl["sizes"], model.get("sizes")), "A:batch-sizes"))
         ms = model["stream"]
         if len(ms) != len(impl["stream"]):
-            fails.append(F("A", "stream length: implementation %d, model %d" % (len(impl["stream"]), len(ms)), "A:length"))
+            fails.append(F("A", where + "stream length: implementation %d, model %d" % (len(impl["stream"]), len(ms)), "A:length"))
             return model
         for t, (a, b) in enumerate(zip(impl["stream"], ms)):
             b = dict(b)
@@ -1220,12 +1344,26 @@ class C10(Property):
                     va = ["ERR" if isinstance(x, str) else Fraction(*x) for x in va]
                     vb = ["ERR" if isinstance(x, str) else Fraction(x[0] / x[1]) for x in vb]
                 if not close(va, vb):
-                    fails.append(F("A", "interaction %d, %s: implementation %s, model %s" % (t, key, json.dumps(va, default=str)[:300], json.dumps(vb, default=str)[:300]), "A:" + key))
+                    fails.append(F("A", where + "interaction %d, %s: implementation %s, model %s" % (t, key, json.dumps(va, default=str)[:300], json.dumps(vb, default=str)[:300]), "A:" + key))
         return model
 
     # ---- shrinking
     def shrink(self, case):
         st, ch = case["stream"], case["chain"]
+        more = case.get("more") or []
+        if more:
+            yield {k: v for k, v in case.items() if k != "more"}
+            for i in range(len(more)):
+                yield dict(case, more=more[:i] + more[i + 1:])
+            yield dict(case, stream=more[0], more=more[1:])
+        if case.get("delivery") == "lazy":
+            yield {k: v for k, v in case.items() if k != "delivery"}
+        if case.get("wrap"):
+            yield {k: v for k, v in case.items() if k != "wrap"}
+        if len(st) > 3:
+            yield dict(case, stream=st[:len(st) // 2])
+            yield dict(case, stream=st[len(st) // 2:])
+            yield dict(case, stream=st[:-1])
         for i in range(len(ch)):
             c = dict(case, chain=ch[:i] + ch[i + 1:])
             yield c
@@ -1265,14 +1403,17 @@ class C10(Property):
 
     def snippet(self, case):
         return ("import sys, json; sys.path[:0] = [%r, '/verif/harness']\n"
-                "from props.c10 import run_pipeline, members, mk_inter, obs_target, logged_index\n"
+                "from props.c10 import Pipeline, sequences, source_of, members, mk_inter, obs_target, logged_index\n"
                 "case = json.loads(%r)\n"
-                "before, _ = members([mk_inter(it) for it in case['stream']])\n"
-                "after, _ = members(run_pipeline(case))\n"
-                "for o, n in zip(before, after):\n"
-                "    print('rewards  ', obs_target(o, 'rewards'), '->', obs_target(n, 'rewards'))\n"
-                "    print('feedbacks', obs_target(o, 'feedbacks'), '->', obs_target(n, 'feedbacks'))\n"
-                "    print('logged action index', logged_index(o), '->', logged_index(n), ' actions', n.get('actions'), ' action', n.get('action'))\n"
+                "pipe = Pipeline(case)          # the filter objects are built once\n"
+                "for seq in sequences(case):\n"
+                "    t = 0\n"
+                "    for out in pipe.run(source_of(case, seq)):   # a list, or a generator of fresh objects when delivery == 'lazy'\n"
+                "        for n in members([out])[0]:\n"
+                "            o = members([mk_inter(seq[t], case.get('wrap'))])[0][0]\n"
+                "            print(t, 'rewards', obs_target(o, 'rewards'), '->', obs_target(n, 'rewards'), '| feedbacks', obs_target(o, 'feedbacks'), '->', obs_target(n, 'feedbacks'),\n"
+                "                  '| logged action index', logged_index(o), '->', logged_index(n))\n"
+                "            t += 1\n"
                 % (os.environ.get("COBA_REPO", "/repo"), json.dumps(case)))
 
 
